@@ -95,6 +95,40 @@ Theorem C19_single_rule_kind :
 Proof. split; [exact dfa_single_rule_kind|exact nfa_single_rule_kind]. Qed.
 Print Assumptions C19_single_rule_kind.
 
+(* the same for the pushdown and Turing-machine classes: invalid stack symbol, acceptance mode,
+   nondeterministic DPDA, bad tape symbol, direction, tape count, final state with transitions, ... *)
+Theorem C19_error_kind_sound_pda_tm :
+  (forall m mode e, npda_validate m mode = Err e -> exists k, e = Invalid k /\ npda_broken m mode k) /\
+  (forall m mode e, dpda_validate_raw m mode = Err e -> exists k, e = Invalid k /\ dpda_broken m mode k) /\
+  (forall m e, tm_validate m = Err e -> exists k, e = Invalid k /\ tm_broken m k) /\
+  (forall n m e, mntm_validate n m = Err e -> exists k, e = Invalid k /\ mntm_broken n m k) /\
+  (forall m k, tm_broken m k -> exists k', tm_validate m = Err (Invalid k') /\ tm_broken m k') /\
+  (forall n m k, mntm_broken n m k -> exists k', mntm_validate n m = Err (Invalid k')).
+Proof.
+  split; [|split; [|split; [|split; [|split]]]].
+  - intros m mode e. exact (proj1 (pda_validate_err_sound m mode e)).
+  - intros m mode e. exact (proj2 (pda_validate_err_sound m mode e)).
+  - exact tm_validate_err_sound.
+  - exact mntm_validate_err_sound.
+  - exact tm_broken_rejected.
+  - exact mntm_broken_rejected.
+Qed.
+Print Assumptions C19_error_kind_sound_pda_tm.
+
+Theorem C19_single_rule_kind_pda_tm :
+  (forall m mode k, npda_broken m mode k -> (forall k', npda_broken m mode k' -> k' = k) ->
+     npda_validate m mode = Err (Invalid k)) /\
+  (forall m mode k, dpda_broken m mode k -> (forall k', dpda_broken m mode k' -> k' = k) ->
+     dpda_validate_raw m mode = Err (Invalid k)) /\
+  (forall m k, tm_broken m k -> (forall k', tm_broken m k' -> k' = k) -> tm_validate m = Err (Invalid k)).
+Proof.
+  split; [|split].
+  - intros m mode k. exact (proj1 (pda_single_rule_kind m mode k)).
+  - intros m mode k. exact (proj2 (pda_single_rule_kind m mode k)).
+  - exact tm_single_rule_kind.
+Qed.
+Print Assumptions C19_single_rule_kind_pda_tm.
+
 (* PDA constructors raise InvalidStateError, InvalidSymbolError, NondeterminismError or
    InvalidAcceptanceModeError, nothing else *)
 Theorem C19_pda_error_kinds : forall m mode e,
